@@ -230,6 +230,10 @@ def possibly_undefined(cfg, rd):
         ds = rd.by_node.get(id(n), []) if n is not cfg.entry else []
         gen[id(n)] = frozenset(d.name for d in ds if '.' not in d.name and d.kind != 'del')
         kill[id(n)] = frozenset(d.name for d in ds if d.kind == 'del')
+        if n.kind == 'for' and isinstance(n.ast, ast.For):
+            # a loop variable read after its loop: whether the iterable can be empty is a value-level question this analysis does not decide;
+            # the zero-iteration path is not reported (the target counts as assigned from the loop head on)
+            gen[id(n)] = gen[id(n)] | frozenset(x.id for x in ast.walk(n.ast.target) if isinstance(x, ast.Name))
     preds = {id(n): [] for n in cfg.nodes}
     for n in cfg.nodes:
         for (t, kind, tok) in n.succ:
@@ -311,6 +315,7 @@ def undefined_witness(cfg, rd, node, name, limit=300000, load=None):
     from collections import deque
     from . import graph as _g
     defs_of_name = set(id(d.node) for d in rd.by_name.get(name, []) if d.kind != 'del')
+    defs_of_name |= set(id(n) for n in cfg.nodes if n.kind == 'for' and isinstance(n.ast, ast.For) and any(isinstance(x, ast.Name) and x.id == name for x in ast.walk(n.ast.target)))
     by_id = {id(n): n for n in cfg.nodes}
 
     def stored_names(n):
